@@ -403,8 +403,12 @@ def generate():
     if not isinstance(consts.get("NAMEBITS"), int):
         U("Tub.NAMEBITS is not an integer literal")
     out.append("Definition NAMEBITS : Z := %d." % consts["NAMEBITS"])
-    gs = P.find_def(pm, "generateSwissnumber")
-    frags(gs, "generateSwissnumber", ["os.urandom("])
+    out.append("Inductive entropy := OsEntropy.")
+    out.append("Definition swissnum_source : entropy := %s.  (* the only source of a name's bits: os.urandom / secrets *)"
+               % swissnum_source(pm))
+    tgs = P.find_def(pm, "Tub.generateSwissnumber")
+    if [ast.unparse(x) for x in body_nodoc(tgs)] != ["return generateSwissnumber(bits)"]:
+        U("Tub.generateSwissnumber no longer returns generateSwissnumber(bits)")
     ur = P.find_def(pm, "Tub.unregisterReference")
     frags(ur, "Tub.unregisterReference", ["name = self.referenceToName[ref]", "del self.nameToReference[name]",
                                          "del self.referenceToName[ref]"])
@@ -479,6 +483,66 @@ def generate():
         U("CopyableRegistry has a non-str key")
     out.append("Definition copyable_names : list string := [%s]." % "; ".join(coq_string(n) for n in names))
     return {"ReachGen.v": "\n\n".join(out) + "\n"}
+
+
+def swissnum_source(pm):
+    """pb.generateSwissnumber(bits): after substituting locals that are assigned once and used once (E2-style single-use
+    temporaries), the function must be `return base32.encode(<E>)` with <E> one of os.urandom(bits // 8),
+    secrets.token_bytes(bits // 8): the name is then a pure encoding of bits//8 bytes from the OS entropy source and of
+    nothing else.  `os` / `secrets` / `base32` must be the module-level imports (not rebound in the module)."""
+    gs = P.find_def(pm, "generateSwissnumber")
+    if [a.arg for a in gs.args.args] != ["bits"] or gs.args.vararg or gs.args.kwarg or gs.args.kwonlyargs or gs.decorator_list:
+        U("generateSwissnumber signature changed")
+    body = body_nodoc(gs)
+    env = {}
+    for st in body[:-1]:
+        if not (isinstance(st, ast.Assign) and len(st.targets) == 1 and isinstance(st.targets[0], ast.Name)
+                and st.targets[0].id not in env and st.targets[0].id != "bits"):
+            U("generateSwissnumber: unexpected statement " + ast.unparse(st))
+        env[st.targets[0].id] = st.value
+    if not body or not isinstance(body[-1], ast.Return) or body[-1].value is None:
+        U("generateSwissnumber does not end with return <expr>")
+
+    class Sub(ast.NodeTransformer):
+        def __init__(self):
+            self.used = {}
+
+        def visit_Name(self, n):
+            if isinstance(n.ctx, ast.Load) and n.id in env:
+                self.used[n.id] = self.used.get(n.id, 0) + 1
+                return self.visit(ast.parse(ast.unparse(env[n.id]), mode="eval").body)
+            return n
+    sub = Sub()
+    expr = sub.visit(ast.parse(ast.unparse(body[-1].value), mode="eval").body)
+    if any(sub.used.get(k, 0) != 1 for k in env):
+        U("generateSwissnumber: a local is not used exactly once")
+    text = ast.unparse(expr)
+    ok = {"base32.encode(os.urandom(bits // 8))": "OsEntropy", "base32.encode(secrets.token_bytes(bits // 8))": "OsEntropy"}
+    if text not in ok:
+        U("generateSwissnumber: the name is not base32 of os.urandom(bits // 8) / secrets.token_bytes(bits // 8) but " + text)
+    # the names used must be the module-level imports, never rebound
+    need = ["base32", "os" if "os.urandom" in text else "secrets"]
+    for st in ast.walk(pm):
+        if isinstance(st, (ast.Assign, ast.AugAssign, ast.AnnAssign, ast.FunctionDef, ast.ClassDef, ast.For, ast.With)):
+            for n in ast.walk(st):
+                if isinstance(n, ast.Name) and isinstance(n.ctx, ast.Store) and n.id in need:
+                    U("pb.py rebinds %s" % n.id)
+            if isinstance(st, (ast.FunctionDef, ast.ClassDef)) and st.name in need:
+                U("pb.py defines %s" % st.name)
+    imported = set()
+    for st in pm.body:
+        if isinstance(st, ast.Import):
+            for a in st.names:
+                imported.add((a.asname or a.name.split(".")[0], a.name.split(".")[0]))
+        elif isinstance(st, ast.ImportFrom):
+            for a in st.names:
+                imported.add((a.asname or a.name, "%s.%s" % (st.module, a.name)))
+    for nm in need:
+        src = [full for (local, full) in imported if local == nm]
+        want = {"os": ["os"], "secrets": ["secrets"], "base32": ["foolscap.base32"]}[nm]
+        if not src or any(x not in want for x in src):
+            U("pb.py: %s is not imported from %s but %s" % (nm, want, src))
+    return ok[text]
 
 
 def clid_sign(fn):
